@@ -339,6 +339,10 @@ def check(prog, rep):
     normalisation(prog, rep)
     duration_dispatch(prog, rep)
     json_agreement(prog, rep)
+    # nothing on the way is memoised on a key that does not determine the answer
+    from ..rules_own import memo_rule
+
+    memo_rule(prog, rep, rule="MEMO")
 
 
 VARIANTS = [
